@@ -99,9 +99,10 @@ def judge(ctx, gname, g, m, f, T_l, P_l, rng):
                 key = KF_SELFREC   # an open leaf of the quantified (recursive) type: occurrences nested below it are not anticipated
             else:
                 from islamon import patches
-                with patches.no_forall_drop():   # repaired twin: does the premature verdict vanish without the shortcut?
-                    vo2 = ev3(ctx, text, to_dt(P_l), g)
-                if vo2 == "U" or vo2 == vc:
+                with patches.no_forall_drop():   # repaired twin: does the contradiction vanish without the shortcut?
+                    vo2 = ev3(ctx, text, to_dt(P_l), g)          # (the shortcut can falsify either side: a premature verdict
+                    vc2 = ev3(ctx, text, to_dt(C_l), g)          #  on the open tree, or a wrong one on the closed completion)
+                if vo2 == "U" or (vo2 in ("T", "F") and vc2 == vo2):
                     key = KF_DROPPED
             ref = R2.evaluate_ref(f, to_dt(C_l))
             ctx.violation(key, f"open tree verdict {vo}, {kind} completion verdict {vc} (specification on the completion: {ref})",
